@@ -299,7 +299,42 @@ def primal_path(ctx):
                + ("; " + "; ".join(sk.problems) if sk.problems else ""), p.func(f"sampling.sampler.{meth}"))
 
 
+def optimize_leaves_propagation_inputs(ctx):
+    """KEYS-1 (non-interference).  The orbital-relaxing AD entry points call trial.optimize and then build the same
+    propagation intermediates as the plain sampler.  Those intermediates read wave_data (the density used for the
+    mean-field shift); if optimize rewrote one of the keys they read, the AD primal run would importance-sample with
+    a different shift than the plain run of the same trial.  optimize may only replace keys the propagation builders
+    do not consume (today: 'mo_coeff')."""
+    from ..rules import keys
+    p = ctx.p
+    ka = keys.key_analysis(p)
+    consumed = {}
+    for P in p.subclasses("propagation.propagator"):
+        if p.abstract_methods(P) or p.lookup_method(P, "_build_propagation_intermediates") is None:
+            continue
+        for k, site in keys.reads_of(ka, P, ["_build_propagation_intermediates"], "wave_data").items():
+            consumed.setdefault(k, (P, site))
+    n = 0
+    for cname, ci in sorted(p.classes.items()):
+        if not cname.startswith("wavefunctions.") or "optimize" not in ci.methods:
+            continue
+        fi = ci.methods["optimize"]
+        if fi.is_abstract or fi.is_refusal():
+            continue
+        w = keys.writes_of(ka, cname, "optimize", "wave_data")
+        if not w:
+            continue          # the default returns wave_data unchanged
+        n += 1
+        clash = sorted(k for k in w if k in consumed)
+        ctx.ob("KEYS-1", f"{cname}.optimize: rewrites no wave_data key that the propagation intermediates are built from",
+               not clash, f"optimize stores {sorted(w)}; builders read {sorted(consumed)}" +
+               (f"; overwritten input(s) {clash}" if clash else ""), fi)
+    if n == 0:
+        ctx.rep.note("no trial class relaxes its orbitals in optimize; KEYS-1 non-interference rule has no instance")
+
+
 def run(ctx):
+    optimize_leaves_propagation_inputs(ctx)
     pure1(ctx)
     driver_modes(ctx)
     primal_path(ctx)
